@@ -2,6 +2,7 @@ CONSTANTS
   Family = "text"
   Unit = "bytes"
   MaxOps = 3
+  Shape <- NoShape
 SPECIFICATION Spec
 INVARIANTS InvWellFormed InvUniqueTags
 CHECK_DEADLOCK FALSE
